@@ -9,6 +9,7 @@ import (
 	"path/filepath"
 	"strings"
 	"sync"
+	"sync/atomic"
 	"syscall"
 	"time"
 
@@ -465,6 +466,85 @@ func runC17(r *ev.Run) {
 		s2.Close()
 		r.Count("races:ops-vs-close", 1)
 		r.Eval(true, ev.Digest("race", N, M, ci))
+	})
+
+	// ------------------------------------------------------------------ concurrent Close on one idle handle
+	// 2..8 goroutines leave a spin barrier together and call Close: exactly one returns nil, the others an error,
+	// nobody panics, the LOCK is gone and the directory can be opened again.
+	ncl := r.Pick(400, 6000)
+	r.Cases("concurrent-close", ncl, func(ci int, rng *rand.Rand) {
+		dir, err := os.MkdirTemp("", "verif-c17k-*")
+		if err != nil {
+			panic(err)
+		}
+		defer os.RemoveAll(dir)
+		rep := func(sig, what string) { r.ViolationAt("concurrent-close", ci, sig, what, nil) }
+		s, err := p.open(dir)
+		if err != nil {
+			rep("own.open-fails-on-free-directory", err.Error())
+			return
+		}
+		if ci%3 == 0 {
+			d := genStoreDoc(rng, p, 1<<24, "k")
+			s.AddWithID(d.ID, d.Vec, d.Text, d.Meta)
+		}
+		K := 2 + rng.IntN(7)
+		var ready, goFlag atomic.Int32
+		res := make(chan string, K)
+		for c := 0; c < K; c++ {
+			go func() {
+				defer func() {
+					if p := recover(); p != nil {
+						res <- fmt.Sprintf("PANIC: %v", p)
+					}
+				}()
+				ready.Add(1)
+				for goFlag.Load() == 0 {
+				}
+				if err := s.Close(); err != nil {
+					res <- "err"
+				} else {
+					res <- "nil"
+				}
+			}()
+		}
+		for int(ready.Load()) < K {
+			runtimeGosched()
+		}
+		goFlag.Store(1)
+		nils, errs := 0, 0
+		for c := 0; c < K; c++ {
+			select {
+			case x := <-res:
+				switch {
+				case x == "nil":
+					nils++
+				case x == "err":
+					errs++
+				default:
+					rep("own.concurrent-close-panics", fmt.Sprintf("one of %d concurrent Close calls panicked: %s", K, strings.TrimPrefix(x, "PANIC: ")))
+					return
+				}
+			case <-time.After(60 * time.Second):
+				rep("own.close-hangs", fmt.Sprintf("one of %d concurrent Close calls did not return within 60 s", K))
+				return
+			}
+		}
+		if nils != 1 {
+			rep("own.concurrent-close-winners", fmt.Sprintf("%d concurrent Close calls: %d returned nil and %d an error; exactly one must succeed", K, nils, errs))
+		}
+		if lockPresent(dir) {
+			rep("own.lock-left-after-close", "LOCK present after concurrent Close calls")
+		}
+		s2, err := p.open(dir)
+		if err != nil {
+			rep("own.open-fails-on-free-directory", fmt.Sprintf("Open after concurrent Close calls failed: %v", err))
+			return
+		}
+		s2.Close()
+		r.Count("races:concurrent-close-rounds", 1)
+		r.Count("races:concurrent-close-calls", int64(K))
+		r.Eval(true, ev.Digest("cc", K, ci%3))
 	})
 
 	// ------------------------------------------------------------------ Close while a compaction is in flight
